@@ -907,6 +907,6 @@ PROP = C16()
 
 MANIFEST = dict(
     technique="Lean 4 proofs by induction (block-buffered hash objects: streaming law for every block size and compression function; executable md5/sha1/sha2; read loop over them and over an abstract streaming hash, POSIX normpath, dict-assignment loop of the section reader, add_checksum histories) + decide on constants regenerated from the AST; differential run on real files, real TreeInfo loads and real Image objects",
-    text="C16_chunked/C16_compute: for an abstract streaming hash with the concatenation law, ANY content and ANY chunk size > 0 the read-until-empty loop returns the one-shot digest (chunk size and loop shape come from the source). C16_streaming_md/C16_chunked_md/C16_any_chunking_md/C16_compute_md: hashlib objects MODELLED as block-buffered absorbers (chaining value, pending bytes, length; update compresses complete blocks, digest pads and finalises) - update(update h a) b = update h (a++b) and update h [] = h PROVED for every block size > 0 and every compression function, hence the code's loop (any chunk size, any chunking) returns the one-shot digest with NO hypothesis about the hash; C16_chunked_md5/_sha1/_sha224/_sha256/_sha384/_sha512, C16_compute_by_name: the same for the executable md5/sha1/sha2 instances (test vectors checked by the kernel: C16_test_vectors; compared with hashlib on every run); C16_add_computes_md: add without a value records that digest. C16_add/_absolute/_refusal/_invariant: the key is normpath(path), never absolute; absolute paths and failures leave the table alone. C16_pointwise: if a [checksums] section loads, every path maps to `typed` of ITS OWN raw value (type:value, or a bare digest typed by length 32/40/64, anything else rejected). C16_add_computes: add without a value records the one-shot digest of the full content of root/normpath(path). C16_roundtrip: write then read is the identity on tables free of ':'; C16_roundtrip_refuses: a table with ':' in a type or value is refused on read, never read as something else. C16_pointwise_legacy: the same pointwise reading for header-less files with relative keys. C16_image_monotone: over any add_checksum history a recorded value never changes.",
+    text="C16_chunked/C16_compute: for an abstract streaming hash with the concatenation law, ANY content and ANY chunk size > 0 the read-until-empty loop returns the one-shot digest (chunk size and loop shape come from the source). C16_streaming_md/C16_chunked_md/C16_any_chunking_md/C16_compute_md: hashlib objects MODELLED as block-buffered absorbers (chaining value, pending bytes, length; update compresses complete blocks, digest pads and finalises) - update(update h a) b = update h (a++b) and update h [] = h PROVED for every block size > 0 and every compression function, hence the code's loop (any chunk size, any chunking) returns the one-shot digest with NO hypothesis about the hash; C16_chunked_md5/_sha1/_sha224/_sha256/_sha384/_sha512, C16_compute_by_name: the same for the executable md5/sha1/sha2 instances (test vectors checked by the kernel: C16_test_vectors; compared with hashlib on every run); C16_add_computes_md / C16_add_computes_by_name: add without a value records that digest (by name: the digest of the algorithm the type names); C16_md_padding: for every pending buffer and length the Merkle-Damgard padding is the smallest whole number of blocks holding pending + 0x80 + length and is compressed completely; C16_oneshot_md: the one-shot digest = all complete blocks compressed in order, length mod blockSize bytes and the total length given to the finaliser. C16_add/_absolute/_refusal/_invariant: the key is normpath(path), never absolute; absolute paths and failures leave the table alone. C16_pointwise: if a [checksums] section loads, every path maps to `typed` of ITS OWN raw value (type:value, or a bare digest typed by length 32/40/64, anything else rejected). C16_add_computes: add without a value records the one-shot digest of the full content of root/normpath(path). C16_roundtrip: write then read is the identity on tables free of ':'; C16_roundtrip_refuses: a table with ':' in a type or value is refused on read, never read as something else. C16_pointwise_legacy: the same pointwise reading for header-less files with relative keys. C16_image_monotone: over any add_checksum history a recorded value never changes.",
     note="hashlib: md5/sha1/sha224/sha256/sha384/sha512 are modelled and compared with hashlib.new(name) (one-shot, fed in chunks, and through compute_checksum on real files); for other algorithm names the generic block-buffered theorem applies with the compression function abstract (that OpenSSL's sha3/blake2/... have this shape is exercised on real files, not proved). The INI reader is not modelled here (the section is an association list fed from the real parser). Legacy header-less path rewriting (_fix_path) is modelled and compared but not part of the pointwise theorem.",
     ref="7/C16")
